@@ -385,9 +385,12 @@ fn shallow_ty(t: &mut Tape, deep: bool) -> Ty {
         _ => Ty::Prim("f64"),
     };
     if !deep || t.chance(1, 2) {
-        return leaf(t);
+        // a borrowed value is the same payload: `let v: &Note = ..`, `fn f(v: &Note)`
+        let l = leaf(t);
+        return if t.chance(1, 5) { Ty::Ref(bx(l)) } else { l };
     }
-    match t.pick(5) {
+    match t.pick(6) {
+        5 => Ty::Vec(bx(Ty::Ref(bx(leaf(t))))),
         0 => Ty::Vec(bx(leaf(t))),
         1 => Ty::Option(bx(leaf(t))),
         2 => Ty::HashMap(bx(Ty::Prim("String")), bx(leaf(t))),
